@@ -40,10 +40,56 @@ def apply_patch(d, text, reverse=False):
     return p.returncode == 0, p.stdout + p.stderr
 
 
+def opt(name, default=None):
+    return sys.argv[sys.argv.index(name) + 1] if name in sys.argv else default
+
+
+def run_seeded_one(sid, seeds):
+    base = os.path.join(V, "seeded")
+    meta = json.load(open(os.path.join(base, sid, "meta.json")))
+    d = scratch()
+    try:
+        ok, msg = apply_patch(d, open(os.path.join(base, sid, "patch.diff")).read())
+        if not ok:
+            return sid, meta, None, msg
+        checks = meta.get("checks_to_run") or [meta["property"]]
+        per_seed = {sd: run_checks(d, checks, seed=sd) for sd in seeds}
+    finally:
+        shutil.rmtree(d, ignore_errors=True)
+    return sid, meta, per_seed, ""
+
+
 def main():
     mode = sys.argv[1]
-    only = sys.argv[sys.argv.index("--only") + 1] if "--only" in sys.argv else None
+    only = opt("--only")
+    seeds = opt("--seeds", "0").split(",")
+    jobs = int(opt("--jobs", "1"))
     results, bad = [], 0
+    if mode == "seeded":
+        # every seeded change against its property's check, for each requested seed (a change that is caught for one
+        # seed only is detected by luck: 'robust' means caught for all of them)
+        from concurrent.futures import ThreadPoolExecutor
+        base = os.path.join(V, "seeded")
+        sids = [s_ for s_ in sorted(os.listdir(base)) if not only or s_ == only or (only.endswith("*") and s_.startswith(only[:-1]))]
+        with ThreadPoolExecutor(max_workers=jobs) as ex:
+            for sid, meta, per_seed, msg in ex.map(lambda s_: run_seeded_one(s_, seeds), sids):
+                if per_seed is None:
+                    print(f"{sid}: patch does not apply: {msg[:200]}", flush=True)
+                    bad += 1
+                    continue
+                caught_seeds = [sd for sd in seeds if any(rc == 1 for rc, _, _ in per_seed[sd].values())]
+                caught = sorted({c for sd in seeds for c, (rc, _, _) in per_seed[sd].items() if rc == 1})
+                verdict = "CAUGHT" if len(caught_seeds) == len(seeds) else ("PARTLY" if caught_seeds else "MISSED")
+                print(f"{verdict} seeded {sid} ({meta['property']}): " + "; ".join(
+                    f"seed {sd}: " + ", ".join(f"{c} rc={rc} {dt}s" for c, (rc, dt, _) in per_seed[sd].items()) for sd in seeds),
+                    flush=True)
+                bad += len(caught_seeds) != len(seeds)
+                results.append({"seeded": sid, "property": meta["property"], "caught_by": caught,
+                                "seeds": seeds, "caught_on_seeds": caught_seeds,
+                                "results": {c: rc for c, (rc, _, _) in per_seed[seeds[0]].items()}})
+        json.dump(results, open(os.path.join(V, "selftest", "last_seeded.json"), "w"), indent=1)
+        print(f"{len(results)} changes x {len(seeds)} seeds, {bad} not caught on every seed")
+        return 1 if bad else 0
     if mode == "reversions":
         for r in json.load(open(os.path.join(V, "selftest", "reversions.json")))["reversions"]:
             if only and not r["commit"].startswith(only):
